@@ -1,0 +1,19 @@
+//go:build verif
+
+package packp
+
+// Contracts for the gvc verifier (/verif). Comment-only; never compiled into
+// a normal build.
+
+// Action: create iff the old id is all zero, delete iff the new id is all
+// zero (git receive-pack: is_null_oid on old/new).
+//gvc:func (*Command).Action
+//gvc:  props C39
+//gvc:  theory int
+//gvc:  let oz = forall(k, 0, 32, c.Old.hash[k] == 0)
+//gvc:  let nz = forall(k, 0, 32, c.New.hash[k] == 0)
+//gvc:  ensures invalid: (result == Invalid) == (oz && nz)
+//gvc:  ensures create: (result == Create) == (oz && !nz)
+//gvc:  ensures delete: (result == Delete) == (!oz && nz)
+//gvc:  ensures update: (result == Update) == (!oz && !nz)
+//gvc:end
